@@ -6,6 +6,7 @@ import fcntl
 import hashlib
 import json
 import os
+import random
 import re
 import subprocess
 import sys
@@ -612,4 +613,69 @@ def boundary_variants(rng, cases, count, max_len=65537):
         args[ai] = enc(new)
         meta = {"nt": True, "variant": kind}
         out.append(Case(c.op, args, meta=meta, tag="boundary"))
+    out += structure_variants(random.Random(rng.random()), pool, max(20, count * 2 // 5))
+    return out
+
+
+# Second family (own random stream, so the first family is unchanged by it):
+#  rep-N    one segment of an argument (a line, a blank-separated word, a path component, a dotted or comma-separated
+#           item) repeated N times for N around 16 / 32 / 64 / 128 / 256 / 1024 / 65536 - what a counter held in a small
+#           integer, a fixed-size table or a depth limit would key on;
+#  carpet-L a run of 2-, 3- or 4-byte characters of about L bytes after 0-3 ASCII characters, so that a multi-byte
+#           character straddles every fixed byte offset (512, 1024, 4096, 8192, 65536) for one of the shifts - what a
+#           block-wise decoder or a byte-indexed slice would key on.
+REP_COUNTS = [15, 16, 17, 31, 32, 33, 63, 64, 65, 127, 128, 129, 255, 256, 257, 1023, 1024, 1025, 65535, 65536, 65537]
+CARPET_BYTES = [520, 1030, 4100, 8200, 16400, 66000, 132000]
+SEG_SEPS = [10, 32, 47, 46, 44, 9]
+
+
+def structure_variants(rng, pool, count):
+    out = []
+    for _ in range(count):
+        c = rng.choice(pool)
+        is_bytes = c.op in VAR_BYTE_OPS
+        ai = 0 if c.op in VAR_FIRST_TEXT else rng.randrange(len(c.args))
+        try:
+            cs = dec(c.args[ai])
+        except ValueError:
+            continue
+        if sum(len(a) for a in c.args) > 400000:
+            continue
+        if rng.random() < 0.6:
+            present = [s for s in SEG_SEPS if s in cs]
+            sep = rng.choice(present) if present and rng.random() < 0.85 else rng.choice(SEG_SEPS[:3])
+            # segments of the argument at that separator
+            idx = [-1] + [k for k, x in enumerate(cs) if x == sep] + [len(cs)]
+            j = rng.randrange(len(idx) - 1)
+            seg = cs[idx[j] + 1:idx[j + 1]]
+            if len(seg) > 200:
+                seg = seg[:200]
+            N = rng.choice(REP_COUNTS)
+            while N * (len(seg) + 1) > 300000:
+                N = rng.choice(REP_COUNTS[:18])
+            if any(x in (123, 125) for x in seg):
+                continue                      # n copies of a brace group have 2^n expansions: a cost question
+            if 42 in seg and N > 17:
+                N = rng.choice(REP_COUNTS[:3])
+            at = idx[j] + 1
+            new = cs[:at] + (seg + [sep]) * (N - 1) + cs[at:]
+            kind = "rep-%d-sep%d" % (N, sep)
+        else:
+            L = rng.choice(CARPET_BYTES)
+            w, cp = rng.choice([(2, 0xE9), (3, 0x65E5), (4, 0x1F600), (3, 0x20AC), (2, 0x3A9)])
+            shift = rng.randrange(4)
+            run = [cp] * (L // w)
+            if is_bytes:
+                b = chr(cp).encode("utf-8")
+                run = list(b) * (L // w)
+            i = rng.randrange(len(cs) + 1) if cs else 0
+            if rng.random() < 0.5:
+                # right after a separator (start of a value, a name, a line)
+                seps = [k + 1 for k, x in enumerate(cs) if x in (10, 32, 45, 47, 58, 61, 44, 40)]
+                i = rng.choice(seps) if seps else i
+            new = cs[:i] + [97] * shift + run + cs[i:]
+            kind = "carpet-%d-w%d-s%d" % (L, w, shift)
+        args = list(c.args)
+        args[ai] = enc(new)
+        out.append(Case(c.op, args, meta={"nt": True, "variant": kind}, tag="boundary"))
     return out
